@@ -1,10 +1,6 @@
 //! vcheck: property-based checks for apache/datasketches-rust (see /verif/DESIGN.md).
 
-#[macro_use]
-pub mod kit;
-pub mod model;
-pub mod spec;
-pub mod props;
+use vcheck::{kit, props, verif_root};
 
 use kit::report::{Report, Tier, Violation};
 use kit::runner::Ctx;
@@ -13,9 +9,6 @@ use std::time::Instant;
 #[global_allocator]
 static GLOBAL: kit::alloc::CapAlloc = kit::alloc::CapAlloc;
 
-pub fn verif_root() -> String {
-    std::env::var("VERIF_ROOT").unwrap_or_else(|_| "/verif".to_string())
-}
 
 fn usage() -> ! {
     eprintln!("usage: vcheck <Cxx> [quick|thorough] [--seed N] [--replay FILE] [--only SUB] [--partial-out FILE]");
